@@ -32,7 +32,7 @@ fn run(ctx: &Ctx) {
     let quick = ctx.quick();
     let timeout = ctx.pick(120.0, 600.0);
     let mut l = Local::new();
-    let check = "factor@opt";
+    let check = "lists@opt";
     // exhaustive small range
     for a in ALGOS {
         run_ranges(ctx, check, "opt", a, 0, (1 << 16) + 1, 1, "c01", &mut l);
@@ -43,6 +43,7 @@ fn run(ctx: &Ctx) {
         }
     }
     // generated composites, generated preferences
+    let mut panics: Vec<Value> = vec![];
     for (i, a) in ALGOS.iter().enumerate() {
         let heavy = matches!(*a, "siqs" | "auto" | "mpqs" | "qs");
         let per = ctx.n(if heavy { 1500 } else { 3000 }, 60_000) as usize;
@@ -56,12 +57,17 @@ fn run(ctx: &Ctx) {
         }
         let outs = run_batch(ctx, check, "opt", &cases, timeout, &judge_c01, &mut l);
         for (c, o) in cases.iter().zip(outs.iter()) {
-            if let Outcome::Panic { .. } = o {
+            if let Outcome::Panic { loc, msg, .. } = o {
                 l.label(if c.prefs.is_default() { "panic-default-prefs(C03)" } else { "panic-under-override" });
+                if panics.len() < 20 {
+                    panics.push(serde_json::json!({"algo": c.algo, "n": c.n.to_string(), "prefs": c.prefs, "at": loc, "msg": crate::engine::truncate(msg, 160)}));
+                }
             }
         }
     }
     ctx.merge(l);
+    // recorded for the reader, judged by C03 (default preferences) or out of every property's domain (tuning overrides)
+    ctx.extra("panics_not_judged_here", Value::Array(panics));
     ctx.essential("outcome:opt:ok", 1000);
     ctx.essential("prefs:non-default", 100);
     ctx.essential("prefs:threads>1", 20);
